@@ -6,6 +6,9 @@ import FsVerif.Proofs.PosExtra
 import FsVerif.Proofs.BufExtra
 import FsVerif.Proofs.Machine
 import FsVerif.Proofs.SourceSink
+import FsVerif.Proofs.FleetStat
+import FsVerif.Proofs.SlotStat
+import FsVerif.Proofs.CBeltStat
 namespace FsVerif.Props.C18
 open FsVerif PosStore
 
@@ -44,6 +47,94 @@ theorem buf_level_integral {s : BufStore} (h : BufStore.ReachD s) :
 theorem buf_final {s : BufStore} (h : BufStore.ReachD s) : (s.step .final).1.wsum = s.area := by
   obtain ⟨h1, h2, h3⟩ := buf_level_integral h
   simp [BufStore.step, BufStore.final, BufStore.updLevel]; exact h3
+
+
+/-! ### Fleet / FleetStore: level = items waiting for the vehicle or under way + delivered items -/
+
+/-- In every reachable state of the fleet model (kernel events included): the recorded level is the true occupancy, and
+    weighted sum + level × time since the last update is the integral of the true occupancy (ghost `area`, advanced only
+    where the clock moves, by the true level × the elapsed time). -/
+theorem fleet_level_integral {s : FleetStore} (h : FleetStore.ReachD s) :
+    s.b.lastLevel = s.b.transit.length + s.b.ready.length ∧ s.b.lastChange ≤ s.b.now ∧
+    s.b.wsum + s.b.lastLevel * (s.b.now - s.b.lastChange) = s.b.area := by
+  have hs := FleetStore.reachD_statB h
+  have hc := (FleetStore.reachD_kt h).core.toPre.count
+  refine ⟨?_, hs.chg, hs.int⟩
+  have := hs.lvl
+  simp only [BufStore.level] at hc
+  omega
+
+/-- `Fleet.update_final_fleet_avg_content(now)`: afterwards the published average is integral / elapsed time. -/
+theorem fleet_final {s : FleetStore} (h : FleetStore.ReachD s) (hpos : 0 < s.b.now) :
+    (s.step .final).1.b.avgNum = s.b.area ∧ (s.step .final).1.b.avgDen = s.b.now := by
+  obtain ⟨_, _, h3⟩ := fleet_level_integral h
+  simp [FleetStore.step, BufStore.final, BufStore.updLevel, hpos]; exact h3
+
+/-- a run with two puts, one vehicle trip, one retrieval: ∫ = 1·3 + 2·5 + 1·2 = 15 over 10 time units -/
+def demoFleet : FleetStore := FleetStore.run (FleetStore.init { cap := some 2, delay := 5, transit := 1 })
+  [.ev, .reservePut 0, .put 0 0 ⟨1, 0⟩, .adv 3, .reservePut 0, .put 0 1 ⟨2, 0⟩, .ev, .ev, .ev, .ev, .ev, .ev, .ev,
+   .reserveGet 1, .get 1 2, .ev, .adv 2, .final]
+example : demoFleet.b.area = 15 ∧ demoFleet.b.now = 10 ∧ demoFleet.b.avgNum = 15 ∧ demoFleet.b.avgDen = 10 ∧
+    demoFleet.b.gotLog.length = 1 ∧ demoFleet.flagged = false := by decide +kernel
+
+/-! ### the two conveyors: level = items travelling + items waiting at the exit.
+The integral is defined on the run (`areaRun`: occupancy before a step × the amount by which the step moves the clock),
+not inside the model. -/
+
+theorem slot_level_integral (cfg : SlotCfg) (ops : List SlotBelt.Op) :
+    let s := (SlotBelt.init cfg).run ops
+    s.lastLevel = s.items.length + s.ready.length ∧ s.lastChange ≤ s.now ∧
+    s.wsum + s.lastLevel * (s.now - s.lastChange) = (SlotBelt.init cfg).areaRun ops := by
+  intro s
+  have hs := SlotBelt.run_statI ops _ 0 (SlotBelt.init_inv cfg) (SlotBelt.init_cons cfg) (SlotBelt.init_statI cfg)
+  have hc := SlotBelt.run_cons ops _ (SlotBelt.init_inv cfg) (SlotBelt.init_cons cfg)
+  rw [Nat.zero_add] at hs
+  exact ⟨hs.level hc, hs.chg, hs.int⟩
+
+/-- `ConveyorBelt.update_final_conveyor_avg_content(now)` (slotted): the published average is integral / elapsed time. -/
+theorem slot_final (cfg : SlotCfg) (ops : List SlotBelt.Op) (hpos : 0 < ((SlotBelt.init cfg).run ops).now) :
+    let s := (SlotBelt.init cfg).run ops
+    (s.step .final).1.avgNum = (SlotBelt.init cfg).areaRun ops ∧ (s.step .final).1.avgDen = s.now := by
+  intro s
+  obtain ⟨_, _, h3⟩ := slot_level_integral cfg ops
+  simp only [SlotBelt.step, SlotBelt.updLevel]
+  have hp : s.now > 0 := hpos
+  simp only [hp, if_true]
+  exact ⟨h3, trivial⟩
+
+def demoSlotOps : List SlotBelt.Op :=
+  [.reservePut 0, .put 0 0 ⟨1, 0⟩, .ev, .ev, .reservePut 0, .put 0 1 ⟨2, 0⟩, .ev, .ev, .ev, .reserveGet 1, .get 1 2, .ev, .ev, .final]
+def demoSlot : SlotBelt := (SlotBelt.init { cap := 2, delay := 1 }).run demoSlotOps
+example : (SlotBelt.init { cap := 2, delay := 1 }).areaRun demoSlotOps = 3 ∧ demoSlot.now = 2 ∧ demoSlot.avgNum = 3 ∧ demoSlot.avgDen = 2 ∧
+    demoSlot.gotLog.length = 1 ∧ demoSlot.flagged = false := by decide +kernel
+
+theorem cbelt_level_integral (cfg : CCfg) (ops : List CBelt.Op) :
+    let s := (CBelt.init cfg).run ops
+    s.lastLevel = s.items.length + s.ready.length ∧ s.lastChange ≤ s.now ∧
+    s.wsum + s.lastLevel * (s.now - s.lastChange) = (CBelt.init cfg).areaRun ops := by
+  intro s
+  have hs := CBelt.run_statI ops _ 0 (CBelt.init_rc cfg) (CBelt.init_statI cfg)
+  have hc := CBelt.run_rc ops _ (CBelt.init_rc cfg)
+  rw [Nat.zero_add] at hs
+  exact ⟨hs.level hc.cons, hs.chg, hs.int⟩
+
+/-- `ConveyorBelt.update_final_conveyor_avg_content(now)` (continuous): the published average is integral / elapsed time. -/
+theorem cbelt_final (cfg : CCfg) (ops : List CBelt.Op) (hpos : 0 < ((CBelt.init cfg).run ops).now) :
+    let s := (CBelt.init cfg).run ops
+    (s.step .final).1.avgNum = (CBelt.init cfg).areaRun ops ∧ (s.step .final).1.avgDen = s.now := by
+  intro s
+  obtain ⟨_, _, h3⟩ := cbelt_level_integral cfg ops
+  simp only [CBelt.step, CBelt.updLevel]
+  have hp : s.now > 0 := hpos
+  simp only [hp, if_true]
+  exact ⟨h3, trivial⟩
+
+def demoCBeltOps : List CBelt.Op :=
+  [.reservePut 0, .put 0 0 ⟨1, 0⟩, .ev, .ev, .ev, .ev, .ev, .reservePut 0, .put 0 1 ⟨2, 0⟩, .ev, .ev, .ev, .ev, .ev,
+   .reserveGet 1, .get 1 2, .ev, .ev, .ev, .final]
+def demoCBelt : CBelt := (CBelt.init { cap := 2, p1 := 1, acc := true }).run demoCBeltOps
+example : (CBelt.init { cap := 2, p1 := 1, acc := true }).areaRun demoCBeltOps = 2 ∧ demoCBelt.now = 2 ∧ demoCBelt.avgNum = 2 ∧ demoCBelt.avgDen = 2 ∧
+    demoCBelt.gotLog.length = 1 ∧ demoCBelt.flagged = false := by decide +kernel
 
 /-! ### node counters -/
 
